@@ -11,3 +11,54 @@ claim(
     'convergence behaviour or which pass converges first.',
     'DESIGN.md 4 C02',
 )
+claim(
+    'C01',
+    'string-shape summaries per branch, regex-AST facts (re._parser), reaching definitions, namespace binding, taint of reordering combinators',
+    'Decides on the current source: the rendering table of Term.__str__/Term.code per guarded branch (sign shown = sign written, no '
+    'index = [t], self._NAME access, exact-key function replacement, verbatim stripping, named-period access); the replacement table '
+    'and that every name the generated class needs is bound in the exec namespace; that normalised equation and code are one '
+    'template formatted over one term list; index parsing (implicit 0, int of the whole INDEX group); structural facts of term_re '
+    '(alternation priorities, word boundaries, keyword language, lookahead, identifier classes, optional whitespace); no reordering '
+    'on the symbol flow. Does not decide that the regex tokenises every program nor NumPy results.',
+    'DESIGN.md 4 C01',
+)
+claim(
+    'C03',
+    'decision-table extraction from guards, enum folding, affine normal forms, twin AST agreement',
+    'Decides: LHS->ENDOGENOUS / RHS->EXOGENOUS tagging at the first `=`; promotion = max over Type restricted on both operands, '
+    'enum order; lag/lead combination table incl. the implicit 0; double-definition ParserError on equation and code; name lists '
+    'per type, NAMES order and field mapping in both templates, |min lags| / |max leads|, floors only in the `is None` branch, '
+    'agreement with build_fortran_definition; insertion-ordered merge; default range span[lags]..span[-1-leads] inclusive (both '
+    'engines). Does not decide that term_re finds every mention.',
+    'DESIGN.md 4 C03',
+)
+claim(
+    'C04',
+    'index discipline in affine form, effect-free rejection paths (CFG reachability x effect summaries), guard dominance, Fortran-template reader',
+    'Decides: every series element store/load in the five solver functions addresses the period being solved (t, or t+offset only '
+    'as the source of the guarded copy); only self.endogenous series are written; Fortran template writes only column `index`; every '
+    'up-front rejection has no effect node on any entry->raise path (K2 recorded); the lags/leads feasibility guard exists, raises '
+    'IndexError and dominates the first evaluation in Python and in both Fortran routines; default range and rendered offsets by '
+    'cross-reference to C03.R7/C01.R1. Does not decide what verbatim code reads or writes.',
+    'DESIGN.md 4 C04',
+)
+claim(
+    'C06',
+    'reaching definitions of status stores, policy table from guards, handler discipline, sibling agreement of filter selection',
+    'Decides: status alphabet (folded enum) and that every value stored into a status series package-wide is an enum reference; the '
+    'per-errors= row of the non-finite branch (stores, exception class, loop exit, last-pass test, ValueError default); ordering '
+    'previous-nonfinite -> current-nonfinite -> convergence by guards; each user-code call wrapped in try/except Exception raising '
+    'SolutionError from e (+E bookkeeping), package-wide `from e`; pre-existing rejection dominance; the three warnings-filter '
+    'selections agree with the table. Does not decide which NumPy operations warn.',
+    'DESIGN.md 4 C06',
+)
+claim(
+    'C08',
+    'CFG order/dominance of per-iteration steps, shared convergence matcher, reaching definitions of stamps, dead-option detection',
+    'Decides for BaseLinker.solve_t/evaluate_t/__init__: pre-hook, submodel passes, post-hook once per iteration in that order with '
+    'the selection forwarded; one _evaluate and one counter increment per selected submodel; convergence = all |current-previous| < '
+    'tol over linker and selected submodels, min_iter gate, 1..max_iter; same status stamped on linker and selection, counters reset; '
+    'KeyError discipline; span comparison idiom; LAGS/LEADS maxima; definite assignment; every option read (offset: K4). Does not '
+    'decide numerical equality with the bare model.',
+    'DESIGN.md 4 C08',
+)
